@@ -86,7 +86,7 @@ func c02Payloads(quick bool) []string {
 
 func c02(r *ev.Result, tier string) {
 	r.Rule = brokerRule + "; plus a sequential enumeration of line payloads (all strings of <=2 (thorough 3) symbols over {NUL,LF,CR,ESC,DEL,0x80,0xff,a} and structural classes incl. 64KiB+1) x 4 writer kinds x {entered before, after attach}"
-	budget := 50 * time.Second
+	budget := 120 * time.Second /* a cap for a loaded machine; idle runs need 10-20 s */
 	if !isQuick(tier) {
 		budget = 10 * time.Minute
 	}
